@@ -71,8 +71,10 @@ def floatToRat7 (f : Float) : Rat :=
 
 def pi : Float := 3.14159265358979323846264338327950288
 
-def atan2degF (x y : Int) : Nat :=
-  let deg := (Float.atan2 (Float.ofInt x) (Float.ofInt y)) * (180.0 / pi)
+def smFloat (v : SignedMag) : Float := if v.neg then -(Float.ofNat v.mag) else Float.ofNat v.mag
+
+def atan2degF (x y : SignedMag) : Nat :=
+  let deg := (Float.atan2 (smFloat x) (smFloat y)) * (180.0 / pi)
   ((deg.floor + 360.0).toUInt64.toNat) % 360
 
 def haversineF (lat1 lon1 lat2 lon2 : Float) : Float :=
@@ -277,7 +279,7 @@ partial def loop (h : IO.FS.Stream) (out : IO.FS.Stream) (st : St) : IO Unit := 
     out.putStrLn (qMsg (parseHexBytes hx)); out.putStrLn (Spec.lineSpec (hexDigits (parseHexBytes hx))); loop h out st
   | ["q", "msg"] => out.putStrLn (qMsg []); out.putStrLn (Spec.lineSpec []); loop h out st
   | ["q", "frame", d] =>
-    out.putStrLn (qFrame env (parseNibbles d)); out.putStrLn (Spec.frameSpec (parseNibbles d)); loop h out st
+    out.putStrLn (qFrame env (parseNibbles d)); out.putStrLn (Spec.frameSpec env (parseNibbles d)); loop h out st
   | ["case", n] => out.putStrLn ("case " ++ n); loop h out st
   | ["reset"] => loop h out { st with cfg := {}, now := 0, table := [], seg := {}, view := {} }
   | "q" :: kind :: args => out.putStrLn (Spec.query env kind args); loop h out st
